@@ -107,3 +107,8 @@ Definition t_close (tol : Qc) (x y : triple QIops) : bool :=
 Definition d_states_ok (tol : Qc) (DT DL : list QI) (pre post : list (triple QIops)) : bool :=
   Nat.eqb (length DT) (length pre) && Nat.eqb (length DL) (length pre) &&
   all2q (t_close tol) (@d_apply_list QIops (fun i => nth i DT qi0) (fun i => nth i DL qi0) pre) post.
+
+(* side condition of C08_wf_run_with_diffusion on the implementation's own longitudinal factors:
+   DL is real and even about the centre state (DL[i] = conj DL[N-1-i]), up to the same relative tolerance *)
+Definition dl_even_ok (tol : Qc) (DL : list QI) : bool :=
+  all2q (qi_close tol) DL (rev (map qi_conj DL)).
